@@ -61,16 +61,24 @@ static struct ImageShape g_shape;
 
 static struct slice g_rem0;
 static size_t g_first_size;
+/* The iterator is specified through what its callers can observe - the frame the NEXT call
+ * will return - not through the values of its fields (an earlier version demanded
+ * remaining.beg == old + size and alarmed on an iterator that clears itself as soon as it is
+ * exhausted: a false alarm, corrected here). */
+#define IT_NEXT(it)                                                                           \
+    (((it)->remaining.beg != 0 && (it)->remaining.beg < (it)->remaining.end) ? (it)->remaining.beg : (uint8_t*)0)
 #define CONTRACT_frame_iterator_next(REQ, ENS, ASG, FRE)                                      \
     REQ(it != 0)                                                                              \
     ENS("[C05.iterator-steps-exactly] on a non-empty slice the iterator returns the header " \
-        "at its start and advances by exactly that frame's bytes_of_frame",                   \
+        "at its start; the frame it will return next starts exactly bytes_of_frame further "  \
+        "(or there is none, when that is the end of the slice), inside the same slice",       \
         IMPL(g_rem0.beg != 0 && g_rem0.beg != g_rem0.end,                                     \
-             RET == (struct VideoFrame*)g_rem0.beg && it->remaining.beg == g_rem0.beg + g_first_size && \
-               it->remaining.end == g_rem0.end))                                              \
-    ENS("[C05.iterator-ends-cleanly] on an empty or NULL slice it returns NULL and clears",  \
-        IMPL(g_rem0.beg == 0 || g_rem0.beg == g_rem0.end,                                     \
-             RET == 0 && it->remaining.beg == 0 && it->remaining.end == 0))                   \
+             RET == (struct VideoFrame*)g_rem0.beg &&                                         \
+               IT_NEXT(it) == (g_rem0.beg + g_first_size < g_rem0.end ? g_rem0.beg + g_first_size : (uint8_t*)0) && \
+               IMPL(IT_NEXT(it) != 0, it->remaining.end == g_rem0.end)))                      \
+    ENS("[C05.iterator-ends-cleanly] on an empty or NULL slice it returns NULL and stays "   \
+        "finished",                                                                           \
+        IMPL(g_rem0.beg == 0 || g_rem0.beg == g_rem0.end, RET == 0 && IT_NEXT(it) == 0))      \
     ASG()
 
 #include "device/props/components.c"
